@@ -148,11 +148,13 @@ type srtRender struct {
 	hours1    bool
 	ownLine   bool // tags opened before the first text line / closed after the last one stand on a line of their own
 	idxMix    uint64
+	sepMix    bool // each time stamp picks its own millisecond separator
+	innerFont bool // a colour-less <font size=..>/<font face=..> element inside a coloured run (closed with it)
 }
 
 func (o srtRender) String() string {
-	return fmt.Sprintf("eol=%q bom=%v index=%d between=%d eof=%d sep=%s mind=%v arrow=%d coords=%v upper=%v quote=%d tags=%d esc=%v h1=%v",
-		o.eol, o.bom, o.indexKind, o.between, o.atEOF, o.sep, o.minDigits, o.arrow, o.coords, o.upper, o.quote, o.tagMode, o.escAll, o.hours1)
+	return fmt.Sprintf("eol=%q bom=%v index=%d between=%d eof=%d sep=%s mind=%v arrow=%d coords=%v upper=%v quote=%d tags=%d esc=%v h1=%v sepmix=%v innerfont=%v",
+		o.eol, o.bom, o.indexKind, o.between, o.atEOF, o.sep, o.minDigits, o.arrow, o.coords, o.upper, o.quote, o.tagMode, o.escAll, o.hours1, o.sepMix, o.innerFont)
 }
 
 // indexKindOf gives the index kind of cue k: 0 numeric, 1 absent, 2 garbage (indexKind 3 = mixed per cue)
@@ -167,6 +169,7 @@ func srtGenRender(r *fw.Rand) srtRender {
 	return srtRender{
 		eol: fw.Pick(r, []string{"\n", "\r\n", "\r"}), bom: r.P(1, 3), indexKind: fw.Pick(r, []int{0, 3, 3, 1, 2}), idxMix: r.U64(),
 		between: r.Range(1, 3), atEOF: r.Range(-1, 3), sep: fw.Pick(r, []string{",", "."}), minDigits: r.P(1, 3),
+		sepMix: r.P(1, 6), innerFont: r.P(1, 3),
 		ownLine: r.P(1, 3), arrow: r.Intn(5), coords: r.P(1, 5), upper: r.P(1, 4), quote: r.Intn(3), tagMode: r.Intn(3), escAll: r.Bool(), hours1: r.P(1, 4),
 	}
 }
@@ -183,7 +186,11 @@ func srtFmtTime(msv int64, o srtRender) string {
 	if o.hours1 && h < 10 {
 		hs = fmt.Sprintf("%d", h)
 	}
-	return fmt.Sprintf("%s:%02d:%02d%s%s", hs, m, s, o.sep, frac)
+	sep := o.sep
+	if o.sepMix {
+		sep = []string{",", "."}[fw.Mix(o.idxMix, uint64(msv))%2]
+	}
+	return fmt.Sprintf("%s:%02d:%02d%s%s", hs, m, s, sep, frac)
 }
 
 // srtEscape writes a run's text so that the format denotes exactly the text: '&' before amp;/lt;/nbsp; must be
@@ -300,7 +307,17 @@ func srtRenderDoc(cs []srtCue, o srtRender, r *fw.Rand) []byte {
 					for _, t := range want {
 						b.WriteString(t.open(o))
 					}
-					b.WriteString(srtEscape(run.Text, following, o.escAll))
+					rs := []rune(run.Text)
+					if cut := len(rs) / 2; o.innerFont && run.Color != "" && cut > 0 && strings.TrimSpace(string(rs[:cut])) != "" && strings.TrimSpace(string(rs[cut:])) != "" {
+						// the inner element says nothing about the colour: the whole run keeps the colour of the outer one
+						inner := srtTag{name: "font"}
+						b.WriteString(srtEscape(string(rs[:cut]), string(rs[cut:])+following, o.escAll))
+						b.WriteString(strings.TrimSuffix(inner.close(o), ">")[:1] + strings.TrimSuffix(inner.close(o), ">")[2:] + fw.Pick(r, []string{` size="12">`, ` face="Arial">`, ` size=+1 face='Courier New'>`}))
+						b.WriteString(srtEscape(string(rs[cut:]), following, o.escAll))
+						b.WriteString(inner.close(o))
+					} else {
+						b.WriteString(srtEscape(run.Text, following, o.escAll))
+					}
 					for i := len(want) - 1; i >= 0; i-- {
 						b.WriteString(want[i].close(o))
 					}
